@@ -236,11 +236,15 @@ func TestConfidential(t *testing.T) {
 	w := vh.NewNDJSON(t, filepath.Join(dir, "trace.ndjson"))
 	maxver, scans, total := 3, 0, 0
 	for tr := 0; tr < ntr; tr++ {
-		sys, err := NewSys(dir, d, false, nil)
+		// every other history goes through the HTTP handlers (callers with generated grants: many requests are refused) --
+		// what a request carries must not reach any file or the audit log, whether it is served or refused
+		httpMode := tr%2 == 1
+		via := map[bool]string{true: "http", false: "db"}[httpMode]
+		sys, err := NewSys(dir, d, httpMode, nil)
 		if err != nil {
 			t.Fatal(err)
 		}
-		w.Put(resetEvent{Ev: "reset", Kek: OpenKek(sys.KEK.Uses()), Via: "db"})
+		w.Put(resetEvent{Ev: "reset", Kek: OpenKek(sys.KEK.Uses()), Via: via})
 		sys.AfterCall = func(c Call, sinkBytes []byte) {
 			scans++
 			filepath.Walk(sys.Dir, func(p string, fi os.FileInfo, err error) error {
@@ -268,8 +272,8 @@ func TestConfidential(t *testing.T) {
 				res.Violate("leak audit "+strings.Join(hits, ","), fmt.Sprintf("the audit record of %s(%q) contains a secret value: %v", c.Op, c.Name, hits), nil)
 			}
 		}
-		saveFaultsToo = true
-		total += genHistoryNames(sys, r, w, res, nev, true, "db", &maxver, tr == 0, names)
+		saveFaultsToo = !httpMode
+		total += genHistoryNames(sys, r, w, res, nev, true, via, &maxver, tr == 0, names)
 		saveFaultsToo = false
 		sys.Close()
 	}
